@@ -53,12 +53,21 @@ func (w *World) now() int { return w.clock }
 
 type disp struct {
 	name string
-	desc string
+	desc  string
+	asked int
 	w    *World
 }
 
 func (d *disp) VarlinkGetName() string        { return d.name }
-func (d *disp) VarlinkGetDescription() string { return d.desc }
+// The description is what the dispatcher says when it is registered; asked again later it says something else
+// (a dispatcher is free to): introspection reports the registered text.
+func (d *disp) VarlinkGetDescription() string {
+	d.asked++
+	if d.asked > 1 {
+		return d.desc + "\n# (asked again)"
+	}
+	return d.desc
+}
 
 func connName(c varlink.Call) string {
 	if g, ok := c.Conn.(varlink.GetNetConn); ok {
@@ -178,6 +187,14 @@ func (d *disp) VarlinkDispatch(ctx context.Context, c varlink.Call, method strin
 				}
 				log("L:ok")
 			}
+		case 'I':
+			// a handler error that happens to be one of the library's own typed errors (a gateway forwarding what a
+			// downstream call returned): a handler error like any other, the handler has not replied
+			log("I")
+			return &varlink.InterfaceNotFound{Interface: "down.stream"}
+		case 'J':
+			log("J")
+			return &varlink.Error{Name: "t.a.Err"}
 		case 'T':
 			// a handler error of the timeout class (a sub-operation of the handler ran out of time) while the
 			// connection's own context is alive: a handler error like any other
